@@ -29,9 +29,17 @@
      C11_exec_failure_retried_full  a produce step whose ExecuteTxs fails has saved the block built from the batch it
                                     took; the next produce step commits exactly that block
      C11_concurrent_reap_same_block_full  a reap running in the middle of a produce step changes nothing of what the
-                                    step takes, builds, executes and commits *)
+                                    step takes, builds, executes and commits
+   Under the pending-submission limit (Model/ReaperLimit.v: MaxPendingHeadersAndData = lim, the two DA watermarks moved
+   independently by the header and the data submission loop), at the end of this file:
+     C11_backpressure_takes_nothing_full  a produce step refused by the limit takes NOTHING from the sequencer: no queue
+                                    record is deleted, nothing is released, the queue is what it was
+     C11_backpressure_lifts_full    once the DA layer has accepted everything the refusal is over, the node untouched
+     C11_no_limit_is_base_full      limit 0 never refuses; a step that is not refused is the step of Model/Reaper.v
+     C11_no_loss_limit_partial / C11_order_limit_full / C11_no_dup_limit_full   the three theorems over histories, for
+                                    every limit and every history with watermark moves at any point *)
 From Coq Require Import NArith ZArith List Bool.
-From Verif Require Import Model.Reaper Proofs.ReaperProofs.
+From Verif Require Import Model.Reaper Proofs.ReaperProofs Model.ReaperLimit Proofs.ReaperLimitProofs.
 Import ListNotations.
 Arguments IArrive t%N.
 Arguments lostb t%N s.
@@ -358,4 +366,104 @@ Example ex_mid :
   observe 1 0 (final 1 0 [IRun ABoot; IRun (AProduce 100); IArrive 3; IRun AReap; IArrive 4; IMid 200 0; IArrive 5; IRun AReap]) (IRun AReap) = (2%N, []) /\
   snd (observe 1 0 (final 1 0 [IRun ABoot; IRun (AProduce 100); IArrive 3; IRun AReap; IArrive 4; IMid 200 0; IArrive 5; IRun AReap]) (IMid 300 0)) =
     [WQDel [4%N]; WQPut [5%N]; WSeen 5%N; WMeta; WBlock 3 [4%N] 300 false; WBlock 3 [4%N] 300 true; WState 3; WHeight 3].
+Proof. vm_compute. repeat split; reflexivity. Qed.
+
+(* ---- under the pending-submission limit (Model/ReaperLimit.v) --------------------------------------------------------------- *)
+(* In every state of a running node — any limit, any two watermarks, any history behind it — in which the back-pressure
+   test of publishBlockInternal holds (pending headers >= lim, or pending data >= lim and waiting data >= lim), every
+   kind of produce step (plain, with a crash / write fault / executor failure scheduled, with a reap in its middle)
+   takes NOTHING from the sequencer: no batch is released, no queue record is deleted or left stale, no block record,
+   height or mempool changes, the watermarks stay, the queue keeps every batch it held in its order (a reap scheduled
+   inside the step can only append one); and but for that reap the step writes nothing at all.  The batch at the head
+   of the queue waits for the tick on which the test no longer holds. *)
+Theorem C11_backpressure_takes_nothing_full : forall (lim max : N) (gt : Z) (l : lst) (it : item),
+  up (base l) = true -> is_produce it = true -> refuses lim l = true ->
+  let l' := lstep lim max gt l (LBase it) in
+  released (base l') = released (base l) /\ stale (base l') = stale (base l) /\ blocks (base l') = blocks (base l) /\
+  sh (base l') = sh (base l) /\ th (base l') = th (base l) /\ mem (base l') = mem (base l) /\
+  hsub l' = hsub l /\ dsub l' = dsub l /\
+  (exists q', queue (base l') = queue (base l) ++ q') /\
+  (forall w, In w (snd (lobserve lim max gt l (LBase it))) -> is_del (AW w) = false) /\
+  (match it with IMid _ _ => True | _ => snd (lobserve lim max gt l (LBase it)) = [] /\ queue (base l') = queue (base l) end).
+Proof. exact backpressure_takes_nothing. Qed.
+Print Assumptions C11_backpressure_takes_nothing_full.
+
+(* In every state of a running node: once the DA layer has accepted the headers and the data up to the store height the
+   test no longer holds (whatever the limit), and nothing of the node's state has changed — so the next produce step is
+   the step of Model/Reaper.v (C11_no_limit_is_base_full) and hands out the head of the queue whole
+   (C11_handout_whole_full). *)
+Theorem C11_backpressure_lifts_full : forall (lim max : N) (gt : Z) (l : lst),
+  up (base l) = true ->
+  let l' := lstep lim max gt (lstep lim max gt l (LHdrSub (th (base l)))) (LDataSub (th (base l))) in
+  base l' = base l /\ refuses lim l' = false.
+Proof. exact backpressure_lifts. Qed.
+Print Assumptions C11_backpressure_lifts_full.
+
+(* Limit 0 (the default) never refuses; and whatever the limit, an item that is not a refused produce step is exactly
+   the item of Model/Reaper.v on the node's state, with the same observation. *)
+Theorem C11_no_limit_is_base_full :
+  (forall l, refuses 0 l = false) /\
+  (forall (lim max : N) (gt : Z) (l : lst) (it : item), blocked lim l it = false ->
+     lstep lim max gt l (LBase it) = set_base (step max gt (base l) it) l /\
+     lobserve lim max gt l (LBase it) = observe max gt (base l) it).
+Proof. exact (conj no_limit_never_refuses not_refused_is_base). Qed.
+Print Assumptions C11_no_limit_is_base_full.
+
+(* C11_no_loss_partial for every limit and every history under it: the items of Model/Reaper.v (crashes, write faults,
+   executor failures, reaps inside steps) interleaved in any way with "the DA layer has accepted the headers up to n"
+   and "... the data up to n" (each watermark on its own: headers confirmed while data stalls, or the reverse, for any
+   length of time).  Guard: no step that is NOT refused hands out a batch without saving its block (the three refuted
+   defects); a refused step is inside the guard whatever was scheduled for it. *)
+Theorem C11_no_loss_limit_partial : forall (lim max : N) (gt : Z) (h : list litem),
+  lsafe_hist lim max gt lst0 h = true ->
+  let s := base (lfinal lim max gt h) in
+  (forall t, In t (taken s) ->
+     In t (concat (block_txs s)) \/ In t (concat (queue s)) \/ (In t (mem s) /\ memb t (seen s) = false)) /\
+  (quiescedb s = true -> forall t, In t (taken s) -> In t (concat (committed s))).
+Proof. exact no_loss_limit_partial. Qed.
+Print Assumptions C11_no_loss_limit_partial.
+
+Theorem C11_order_limit_full : forall (lim max : N) (gt : Z) (h : list litem),
+  let s := base (lfinal lim max gt h) in
+  Subseq (filter nonempty (committed s)) (released s) /\
+  (lsafe_hist lim max gt lst0 h = true -> filter nonempty (block_txs s) = released s).
+Proof. exact order_limit_full. Qed.
+Print Assumptions C11_order_limit_full.
+
+Theorem C11_no_dup_limit_full : forall (lim max : N) (gt : Z) (h : list litem),
+  crash_free (base_items h) = true -> fault_free (base_items h) = true ->
+  NoDup (concat (block_txs (base (lfinal lim max gt h)))).
+Proof. exact no_dup_limit_full. Qed.
+Print Assumptions C11_no_dup_limit_full.
+
+(* non-vacuity: limit 2; the DA layer confirms every header at once and no data: blocks 2 and 3 carry [1] and [2], the
+   data backlog reaches the limit; [3] is handed to the sequencer and three ticks are refused (result 13, nothing
+   written, [3] stays queued; the third has a reap in its middle, which hands off [4] behind it); the DA layer accepts
+   the data; the next two ticks commit [3] and [4].  While headers stall the header half refuses alone (ex_hdr). *)
+Definition ex_hl : list litem :=
+  [LBase (IRun ABoot); LBase (IRun (AProduce 100)); LHdrSub 1;
+   LBase (IArrive 1); LBase (IRun AReap); LBase (IRun (AProduce 200)); LHdrSub 2;
+   LBase (IArrive 2); LBase (IRun AReap); LBase (IRun (AProduce 300)); LHdrSub 3;
+   LBase (IArrive 3); LBase (IRun AReap)].
+Definition ex_hl2 : list litem :=
+  [LBase (IRun (AProduce 400)); LBase (IExecFail 500); LBase (IArrive 4); LBase (IMid 600 0); LDataSub 3;
+   LBase (IRun (AProduce 700)); LBase (IRun (AProduce 800)); LBase (IRun AReap)].
+
+Example ex_limit :
+  let l := lfinal 2 0 0 ex_hl in
+  up (base l) = true /\ refuses 2 l = true /\ pending_headers l = 0 /\ waiting_data l = 2 /\ queue (base l) = [[3%N]] /\
+  lobservations 2 0 0 l ex_hl2 =
+    [(13, []); (13, []); (0, []); (13, [WQPut [4]; WSeen 4]); (0, []);
+     (3, [WQDel [3]; WMeta; WBlock 4 [3] 700 false; WBlock 4 [3] 700 true; WState 4; WHeight 4]);
+     (3, [WQDel [4]; WMeta; WBlock 5 [4] 800 false; WBlock 5 [4] 800 true; WState 5; WHeight 5]); (2, [])]%N /\
+  lsafe_hist 2 0 0 lst0 (ex_hl ++ ex_hl2) = true /\ quiescedb (base (lfinal 2 0 0 (ex_hl ++ ex_hl2))) = true /\
+  committed (base (lfinal 2 0 0 (ex_hl ++ ex_hl2))) = [[]; [1]; [2]; [3]; [4]]%N /\
+  crash_free (base_items (ex_hl ++ ex_hl2)) = true /\ fault_free (base_items (ex_hl ++ ex_hl2)) = true.
+Proof. vm_compute. repeat split; reflexivity. Qed.
+
+Example ex_hdr :
+  let l := lfinal 1 0 0 [LBase (IRun ABoot); LBase (IRun (AProduce 100)); LBase (IArrive 1); LBase (IRun AReap)] in
+  refuses 1 l = true /\ waiting_data l = 0 /\ pending_headers l = 1 /\
+  lobserve 1 0 0 l (LBase (ICrash (AProduce 200) 3 true)) = (7%N, []) /\
+  queue (base (lstep 1 0 0 l (LBase (ICrash (AProduce 200) 3 true)))) = [[1%N]].
 Proof. vm_compute. repeat split; reflexivity. Qed.
